@@ -195,6 +195,8 @@ pub mod protocol;
 pub mod static_versions;
 mod tests;
 pub mod variable_versions;
+#[cfg(netflow_parser_verif)]
+pub mod verif_hooks;
 
 use crate::netflow_common::{NetflowCommon, NetflowCommonError, NetflowCommonFlowSet};
 
@@ -208,7 +210,10 @@ use variable_versions::v9::{V9, V9Parser};
 use nom_derive::{Nom, Parse};
 use serde::Serialize;
 
+#[cfg(not(netflow_parser_verif))]
 use std::collections::HashSet;
+#[cfg(netflow_parser_verif)]
+use verif_hooks::HashSet;
 
 /// Enum of supported Netflow Versions
 #[derive(Debug, Clone, Serialize)]
